@@ -31,6 +31,8 @@ pub enum Mode {
     CloseAtOnce,
     /// reads the first bytes, then closes without answering
     ReadThenClose,
+    /// answers the first request with success after 2.5 s, then reads and never answers again
+    SlowAnswerThenSilent,
 }
 
 fn register(contacts: &Contacts, name: &str, peer: String) -> usize {
@@ -58,6 +60,19 @@ fn serve<S: Read + Write>(mut s: S, idx: usize, mode: Mode, contacts: Contacts) 
         }
         if mode == Mode::ReadThenClose {
             return;
+        }
+        if mode == Mode::SlowAnswerThenSilent {
+            if parsed == 0 {
+                if let Ok((frames, used)) = msg::split_frames(&all) {
+                    if let Some(Ok(m)) = frames.first().map(|f| Msg::from_tlv(f, &mut vec![])) {
+                        parsed = used;
+                        std::thread::sleep(Duration::from_millis(2500));
+                        let (bytes, _) = respond(&m, Behave::Rc(0), 0);
+                        let _ = s.write_all(&bytes);
+                    }
+                }
+            }
+            continue;
         }
         let (frames, used) = match msg::split_frames(&all[parsed..]) {
             Ok(x) => x,
